@@ -24,6 +24,9 @@ func Worker(args []string) int {
 		defer fix.Cleanup()
 		return mc.WorkerMain(args[1:])
 	}
+	if len(args) > 0 && args[0] == "c01race" {
+		return c01RaceWorker(args[1:])
+	}
 	if len(args) > 0 && args[0] == "c11open" {
 		return c11OpenWorker(args[1:])
 	}
